@@ -1,7 +1,7 @@
 \* generated by spec/mkcfg.py
-SPECIFICATION MCSpec
+SPECIFICATION Spec
 CONSTANTS
-  Senders = {1, 2}
+  Senders = {1}
   MaxSend = 4
   MaxTele = 3
   M = 4
@@ -23,6 +23,6 @@ CONSTANTS
   UseTCP = FALSE
   ChanUnderLock = TRUE
   AckChanCheck = TRUE
-  Urgent = FALSE
-INVARIANTS TypeOK ObsQuiet
+  Urgent = TRUE
+INVARIANTS TypeOK
 CHECK_DEADLOCK FALSE
